@@ -138,6 +138,13 @@ pub(crate) mod lpc;
 pub(crate) mod par;
 #[cfg(all(flacenc_verif, feature = "par"))]
 pub mod verif_hook;
+#[cfg(flacenc_verif)]
+#[doc(hidden)]
+pub mod verif_access {
+    //! Crate-private encoder stages made callable for the verification harness
+    //! (compiled only with `--cfg flacenc_verif`).
+    pub use crate::coding::encode_residual;
+}
 pub(crate) mod repeat;
 pub(crate) mod rice;
 #[cfg(any(test, feature = "__export_sigen"))]
